@@ -42,6 +42,12 @@ fn gen_model(r: &mut Rng, exhaustive: Option<usize>) -> LinearModel {
     }
     let obj: Vec<f64> = (0..nv).map(|_| *r.pick(&coefs)).collect();
     m.set_objective(obj, if r.chance(1, 2) { OptimizationType::Min } else { OptimizationType::Max });
+    // the domain map of a compiled model is in declaration order, its columns are sorted: now and then the two orders differ
+    if nv >= 2 && r.chance(1, 4) {
+        let (o, t, off, c, v, d) = m.into_parts();
+        let d: indexmap::IndexMap<String, rooc::model_transformer::DomainVariable> = d.into_iter().rev().collect();
+        return LinearModel::new_from_parts(o, t, off, c, v, d);
+    }
     m
 }
 
